@@ -6,6 +6,10 @@ def S(name, build, tiers=("quick", "thorough"), args=(), **kw):
     return d
 
 STAGES = {
+    "C01": [S("native", "native")],
+    "C13": [S("native", "native")],
+    "C14": [S("native", "native")],
+    "C15": [S("native", "native")],
     "C09": [
         S("native", "native"),
         S("miri", "miri", tiers=("thorough",), args=["--n", "300"], timeout=3000),
@@ -17,11 +21,31 @@ STAGES = {
 }
 
 LEVELS = {
+    "C01": "exploration",
+    "C13": "exploration",
+    "C14": "exploration",
+    "C15": "exploration",
     "C09": "exploration",
     "C16": "exploration",
 }
 
 ASSUMPTIONS = {
+    "C01": [
+        "the strict decoder in harness/src/image.rs encodes the minidump layout rules correctly (struct sizes from the format definition)",
+        "only Ok dumps are judged; Err/panic outcomes are counted as no-verdict here and judged by C02",
+    ],
+    "C13": [
+        "well-formed input only: ascending, non-overlapping lines in the kernel's text format",
+        "weakest reading of the three merge rules (see DESIGN.md C13)",
+    ],
+    "C14": [
+        "harness/src/elf.rs (independent reader) implements the ELF specification for notes, section names and DT_SONAME",
+        "comparison is made only where the independent reader deems the file well-formed and finds a value",
+    ],
+    "C15": [
+        "ground truth is the checker's own read of /proc/<pid>/task/<tid>/comm while the target is quiescent",
+        "a name differing only by trailing whitespace is accepted (the writer documents trimming)",
+    ],
     "C09": [
         "the in-memory destination models file semantics (sparse seek, zero fill) as std::fs::File does",
         "histories only grow the image by appending (as every writer in the crate does); rewriting already-flushed bytes other than directory slots is outside the stated operation set",
@@ -33,6 +57,26 @@ ASSUMPTIONS = {
 }
 
 META = {
+    "C01": {
+        "technique": "strict independent minidump decoder + pairwise extent-overlap sweep on returned images of real dumps of generated hostile targets x option combinations; array-slot invariant hook at the source",
+        "level_text": "Every returned image of hundreds (quick) / thousands (thorough) of real dumps of generated targets (1..64 threads, named/unnamed/unreadable-name mixes, anonymous and ELF file mappings, fds) under all on/off combinations of the 7 writer options goes through an intolerant decoder that checks header, directory, exact stream sizes, every RVA and pairwise non-overlap with exactly two sanctioned aliasings. Exploration; thorough enumerates all 128 option on/off combinations per thread-count class.",
+        "level_note": "Trusts harness/src/image.rs. x86-64 Linux only; src/mac is not executed. Dumps that return Err are not judged here.",
+    },
+    "C13": {
+        "technique": "partition-reconstruction oracle over the real aggregate function: exhaustive enumeration of short memory maps + random long ones",
+        "level_text": "All sequences of <=3 (quick) / <=4 (thorough) lines over a 16-kind alphabet x adjacency x every vDSO address choice are fed to the real MappingInfo::aggregate (exhaustive within that bound), plus random maps of up to 400 lines; each output is checked for order, non-overlap, exact hull, one-container-per-line and a justification for every merge step.",
+        "level_note": "Exhaustive only within the stated alphabet and length; inputs are well-formed kernel-format text. Merging is not demanded (the statement says 'only when'); C08 judges module extents.",
+    },
+    "C14": {
+        "technique": "differential monitor against an independent ELF reader; structure-aware boundary-value mutation with panic capture (overflow checks on)",
+        "level_text": "Totality: every (field x boundary value) single mutation and every truncation of two synthetic seeds (exhaustive), 100k+ random field pairs, random bytes, all with catch_unwind under the debug profile. Agreement: synthetic 32/64-bit images (construction = expected) and every ELF installed on the machine (thorough) vs. an independent reader; file vs. slice reader. Live memory-vs-file agreement is exercised by C08.",
+        "level_note": "Trusts harness/src/elf.rs. Big-endian and exotic note alignments only as far as installed files contain them.",
+    },
+    "C15": {
+        "technique": "set-equality oracle between the thread-name stream and the checker's own /proc comm reads, with per-thread name-read faults injected through the verif-hooks predicate; exhaustive fault subsets for small targets",
+        "level_text": "For targets with <=6 threads every subset of unreadable names is enumerated (exhaustive); larger targets (to 32 threads) get random subsets. Names cover empty, whitespace, multi-byte UTF-8 at the 15-byte cut. Each dump's stream must equal exactly the set of (tid, comm) pairs of listed threads with readable names.",
+        "level_note": "Name unreadability is injected at the read site (hook); natural unreadability (thread gone) is covered by C04/C11.",
+    },
     "C09": {
         "technique": "reference file-model monitor compared with the real destination after every call, over random DirSection histories and hostile destinations (short writes, EINTR, injected failures); whole dumps into the same destinations",
         "level_text": "History level: random grow/emit/flush histories (<=40 ops) on the real DirSection with a content-only file model as oracle, checked after every call, on plain / short-writing / interrupting / failing destinations at 7 start offsets with arbitrary pre-existing content. Whole-dump level: live dumps into the same destinations compared with the returned image. Exploration, not exhaustive.",
